@@ -71,7 +71,7 @@ def classify_dec(ver, pfx, o1, o2, nka, method, has_cl):
     quick=dict(X=3, timeout=120, reach_timeout=60),
     thorough=dict(X=5, timeout=900, reach_timeout=90),
     nshards=dict(quick=6, thorough=10),
-    reach=["close_found", "keepalive_found", "ack_sent", "close_told"],
+    reach=["close_found", "keepalive_found", "close_told"],
     units=["http1connection.HTTP1Connection._can_keep_alive",
            "HTTP1Connection.write_headers (Connection: close / Keep-Alive emission)"],
     stubs=["FakeStream; the unit is called directly with a parsed RequestStartLine and an HTTPHeaders "
@@ -82,6 +82,8 @@ def classify_dec(ver, pfx, o1, o2, nka, method, has_cl):
 )
 def h_decision(ver: int, pfx: int, o1: int, o2: int, nka: bool, method: int, has_cl: bool):
     """The keep-alive decision and its announcement for a solver-chosen Connection value."""
+    if P.reach == "ack_sent" and (ver != 0 or nka or pfx != 1):
+        return      # reach-twin steering only (necessary condition for the tag)
     value = CONN_PREFIX[pfx] + chr(o1) + chr(o2)
     meth = _M[method]
     with install() as env:
@@ -157,7 +159,7 @@ def classify_ka(ver, conn, method, framing, nka, early, rmode):
 
 @harness(
     pre=pre_ka,
-    quick=dict(C=4, timeout=160, reach_timeout=60),
+    quick=dict(C=6, timeout=160, reach_timeout=60),
     thorough=dict(C=8, timeout=900, reach_timeout=90),
     nshards=dict(quick=9, thorough=9),
     reach=["kept_open_11", "kept_open_10", "closed_by_close_option", "closed_no_keep_alive",
